@@ -1456,6 +1456,15 @@ func (s *Netceptor) handleRoutingUpdate(ri *routingUpdate, recvConn string) {
 		// Our peer is still trying to initialize
 		return
 	}
+	for conn, cost := range ri.Connections {
+		if !(cost > 0.0) {
+			// Connection costs are always positive. A non-positive cost would keep the shortest-path
+			// calculation in updateRoutingTable from terminating.
+			s.Logger.SanitizedWarning("Ignoring routing update from %s via %s with non-positive cost for %s\n", ri.NodeID, recvConn, conn)
+
+			return
+		}
+	}
 	if ri.NodeID == s.nodeID {
 		if ri.UpdateEpoch == s.epoch {
 			return
